@@ -46,10 +46,10 @@ LEVEL_TEXT = ("Props/C11.lean (float syntax model, every feature set): complete_
               "exponent (Props/C11Sep.lean): partial_prefix_sep (number AND special-value results; _number, _special, _model, "
               "_model_number, partial_prefix_sep_full_partial) proves the prefix relation for EVERY combination of the 14 "
               "separator predicates (or none) on the three digit components - including I+T+C and I+L+C, whose known defects "
-              "accept more but consistently before and after the cut - in the release build, base suffix allowed, no base "
-              "prefix, mantissa digits required, punctuation not colliding with the separator (SepCfg; derived from "
+              "accept more but consistently before and after the cut - in the release build, base prefix and suffix allowed, "
+              "mantissa digits required, punctuation not colliding with the separator (SepCfg; derived from "
               "format.is_valid + valid options + is_valid_options_punctuation by sepCfg_of_valid, plus: the separator is not the "
-              "other ASCII case of the exponent / suffix character). Key lemma peek_trunc: a cut at the returned count changes "
+              "other ASCII case of the exponent / prefix / suffix character). Key lemma peek_trunc: a cut at the returned count changes "
               "the look-ahead of a skip decision only from `some x` to end of input, all predicates are monotone for that change "
               "(holds_weaken) unless they ask for a digit after the separator (i, il, ic, ilc@first), and that digit is then "
               "consumed by the digit loop - EXCEPT in the exponent when mantissa_radix > exponent_radix: the exact exclusion "
@@ -61,8 +61,8 @@ LEVEL_TEXT = ("Props/C11.lean (float syntax model, every feature set): complete_
               "every separator run, parse_positive_special commutes with every cut at or behind its match for EVERY format "
               "(parsePositiveSpecial_prefix), and the number parser fails on the cut buffer as on the whole one when no byte "
               "matching a special head is a mantissa digit / the decimal point (SpecialHeadsOK, necessary) / the separator "
-              "('-_n_a__n__x' -> (NaN, 9) with special_digit_separator). Open (partial_prefix_sep_full): formats with a base "
-              "prefix AND a separator byte; a separator that is the other ASCII case of the exponent or suffix character or one "
+              "('-_n_a__n__x' -> (NaN, 9) with special_digit_separator). Open (partial_prefix_sep_full): a separator that is the "
+              "other ASCII case of the exponent, prefix or suffix character or one "
               "of I i N n (exhaustive model search to length 5-6 over all uniform decimal/hex separator formats, also with a "
               "base prefix, found no violation besides the radix one).")
 LEVEL_NOTE = ("Trusted: Lean kernel; rustc; that the models mirror the Rust control flow (correspondence only). The integer parser with the "
